@@ -303,10 +303,10 @@ func el_errText(v *lisp.LVal) string {
 const childEnv = "C13_HISTORY_CHILD"
 
 type histFinding struct {
-	Case     histCase `json:"case"`
-	Class    string   `json:"class"`
-	Expected string   `json:"expected"`
-	Got      string   `json:"got"`
+	Case     json.RawMessage `json:"case"`
+	Class    string          `json:"class"`
+	Expected string          `json:"expected"`
+	Got      string          `json:"got"`
 }
 
 type histResult struct {
@@ -317,21 +317,77 @@ type histResult struct {
 	MaxProcs  int              `json:"gomaxprocs"`
 }
 
+// hcase is one history of either kind.
+type hcase struct {
+	D *histCase
+	L *loadHistCase
+}
+
+func (h hcase) raw() json.RawMessage {
+	if h.L != nil {
+		return h.L.raw()
+	}
+	b, _ := json.Marshal(h.D)
+	return b
+}
+
+func parseHCase(raw []byte) (hcase, error) {
+	var head struct {
+		Kind string `json:"kind"`
+	}
+	if err := json.Unmarshal(raw, &head); err != nil {
+		return hcase{}, err
+	}
+	if head.Kind == "lhist" {
+		var c loadHistCase
+		err := json.Unmarshal(raw, &c)
+		return hcase{L: &c}, err
+	}
+	var c histCase
+	err := json.Unmarshal(raw, &c)
+	return hcase{D: &c}, err
+}
+
+func allHistories(thorough bool) []hcase {
+	var out []hcase
+	for _, c := range histSpace(thorough) {
+		c := c
+		out = append(out, hcase{D: &c})
+	}
+	for _, c := range loadHistSpace(thorough) {
+		c := c
+		out = append(out, hcase{L: &c})
+	}
+	return out
+}
+
 // runHistories executes cases in order on one goroutine.  gcEvery > 0: the
 // collector is off and runs only between histories.
-func runHistories(cases []histCase, gcEvery int) histResult {
+func runHistories(cases []hcase, gcEvery int) histResult {
 	res := histResult{Outcomes: map[string]int64{}, MaxProcs: runtime.GOMAXPROCS(0)}
 	w, fresh := newWorker(), newWorker()
 	perClass := map[string]int{}
-	for i, c := range cases {
-		fs, out, n := runHistory(w, fresh, c)
+	for i, h := range cases {
+		var fs []finding
+		var key string
+		var n int64
+		if h.L != nil {
+			var out string
+			fs, out, n = runLoadHistory(w, fresh, *h.L)
+			key = "load-history/" + h.L.L2 + "/" + modeName(h.L.SN2, h.L.EI2) + "/" + out
+		} else {
+			c := *h.D
+			var out string
+			fs, out, n = runHistory(w, fresh, c)
+			key = "history/" + c.Shape + "/" + c.Leaf + "/" + ifs(c.Depth+2 >= 64, "deep", "shallow") + "/" + out
+		}
 		res.Histories++
 		res.Evals += n
-		res.Outcomes["history/"+c.Shape+"/"+c.Leaf+"/"+ifs(c.Depth+2 >= 64, "deep", "shallow")+"/"+out]++
+		res.Outcomes[key]++
 		for _, f := range fs {
-			if perClass[f.Class] < 6 {
+			if perClass[f.Class] < 4 {
 				perClass[f.Class]++
-				res.Findings = append(res.Findings, histFinding{c, f.Class, f.Expected, f.Got})
+				res.Findings = append(res.Findings, histFinding{h.raw(), f.Class, f.Expected, f.Got})
 			}
 		}
 		if gcEvery > 0 && (i+1)%gcEvery == 0 {
@@ -346,19 +402,19 @@ func runHistories(cases []histCase, gcEvery int) histResult {
 // JSON on stdout.
 func childMain(arg string) {
 	debug.SetGCPercent(-1)
-	var cases []histCase
+	var cases []hcase
 	switch {
 	case arg == "quick" || arg == "thorough":
-		cases = histSpace(arg == "thorough")
+		cases = allHistories(arg == "thorough")
 	default:
-		var c histCase
-		if err := json.Unmarshal([]byte(arg), &c); err != nil {
+		h, err := parseHCase([]byte(arg))
+		if err != nil {
 			fmt.Fprintln(os.Stderr, "c13 history child:", err)
 			os.Exit(3)
 		}
-		cases = []histCase{c}
+		cases = []hcase{h}
 	}
-	res := runHistories(cases, 50)
+	res := runHistories(cases, 200)
 	b, _ := json.Marshal(res)
 	os.Stdout.Write(b)
 	os.Exit(0)
@@ -400,28 +456,49 @@ func spawnHistories(arg string) (histResult, error) {
 
 // histOnce re-executes one history straight-line: in a fresh child process
 // (deterministic pool reuse) or, if no child can be started, in-process.
-func histOnce(c histCase) ([]finding, string) {
-	raw, _ := json.Marshal(c)
+func histOnce(raw json.RawMessage) ([]finding, string, error) {
+	h, err := parseHCase(raw)
+	if err != nil {
+		return nil, "", err
+	}
 	res, err := spawnHistories(string(raw))
 	how := "child process GOMAXPROCS=1 GOGC=off"
 	if err != nil {
-		res = runHistories([]histCase{c}, 0)
+		res = runHistories([]hcase{h}, 0)
 		how = "in-process (" + err.Error() + ")"
 	}
 	var fs []finding
 	for _, f := range res.Findings {
 		fs = append(fs, finding{f.Class, f.Expected, f.Got})
 	}
-	return fs, how
+	return fs, how, nil
 }
 
 // runHistoryPart is the H part of the run: the whole space in a child
 // process (concurrently with the other parts), a sub-space in-process.
 func (x *explorer) startHistories() (wait func()) {
 	r := x.r
-	all := histSpace(r.Thorough())
-	sub := inProcessSubset(all)
-	r.Bound("histories", len(all))
+	dumpH := histSpace(r.Thorough())
+	loadH := loadHistSpace(r.Thorough())
+	var all, sub []hcase
+	for i := range dumpH {
+		all = append(all, hcase{D: &dumpH[i]})
+	}
+	for i := range loadH {
+		all = append(all, hcase{L: &loadH[i]})
+	}
+	for _, c := range inProcessSubset(dumpH) {
+		c := c
+		sub = append(sub, hcase{D: &c})
+	}
+	for _, c := range inProcessLoadSubset(loadH) {
+		c := c
+		sub = append(sub, hcase{L: &c})
+	}
+	r.Bound("dump_histories", len(dumpH))
+	r.Bound("load_histories", len(loadH))
+	r.Bound("load_history_seed_documents", seedDocs)
+	r.Bound("load_history_second_documents", len(loadH)/(len(seedDocs)*len(seedForms)*12))
 	r.Bound("histories_also_in_process", len(sub))
 	r.Bound("history_tower_depths", histDepths(r.Thorough()))
 	r.Bound("history_shapes", histShapes)
@@ -452,9 +529,9 @@ func (x *explorer) startHistories() (wait func()) {
 		}
 	}
 	merge(runHistories(sub, 0), "in-process")
-	for _, c := range all {
-		if c.Depth+2 >= 64 {
-			r.Nontrivial(fmt.Sprintf("hist:%+v", c))
+	for _, h := range all {
+		if h.L != nil || h.D.Depth+2 >= 64 {
+			r.Nontrivial("hist:" + string(h.raw()))
 		}
 	}
 	return func() {
@@ -465,7 +542,7 @@ func (x *explorer) startHistories() (wait func()) {
 			merge(runHistories(all, 0), "in-process-fallback")
 			return
 		}
-		r.Extra("history_child", map[string]any{"gomaxprocs": o.res.MaxProcs, "gogc": "off (collections only between histories)", "histories": o.res.Histories, "dumps": o.res.Evals})
+		r.Extra("history_child", map[string]any{"gomaxprocs": o.res.MaxProcs, "gogc": "off (collections only between histories)", "histories": o.res.Histories, "json_calls": o.res.Evals})
 		merge(o.res, "child")
 	}
 }
